@@ -119,6 +119,10 @@ FILE* fopen_inode(std::shared_ptr<Inode> ino, const char* mode, int* fd_out = nu
 void set_urandom(int mode, uint64_t seed);
 uint8_t urandom_byte(int mode, uint64_t seed, uint64_t pos);
 uint64_t urandom_consumed();
-void urandom_reopen_guard(); // see sim_rand
+// Scripted device behaviour for successive reads (used by sim-rand so that two passes see the same
+// fault sequence): 0 = deliver everything asked, k>0 = deliver at most k bytes, -1 = EIO, -2 = EINTR.
+// When the script is exhausted every read is delivered in full.
+void set_urandom_script(const std::vector<int>& script);
+size_t urandom_script_used();
 
 } // namespace vfs
